@@ -417,13 +417,13 @@ func (pp *Prepass) instrWritesIn(fn *ssa.Function, ins ssa.Instruction, ws KeySe
 		ws[MapDomKey(tm.SortOf(mt.Key()), mt)] = true
 		ws[MapCardKey] = true
 	case *ssa.MakeSlice:
-		ws[ElemKey(tm.SortOf(x.Type().Underlying().(*types.Slice).Elem()))] = true
+		ws[pp.elemKey(x.Type().Underlying().(*types.Slice).Elem())] = true
 	case *ssa.MakeChan:
 		ws["G:closed"] = true
 	case *ssa.Slice:
 		if pt, ok := x.X.Type().Underlying().(*types.Pointer); ok {
 			if at, ok := pt.Elem().Underlying().(*types.Array); ok {
-				ws[ElemKey(tm.SortOf(at.Elem()))] = true
+				ws[pp.elemKey(at.Elem())] = true
 			}
 		}
 	case *ssa.Alloc:
@@ -435,7 +435,7 @@ func (pp *Prepass) instrWritesIn(fn *ssa.Function, ins ssa.Instruction, ws KeySe
 			switch bi.Name() {
 			case "append", "copy":
 				if st, ok := cc.Args[0].Type().Underlying().(*types.Slice); ok {
-					ws[ElemKey(tm.SortOf(st.Elem()))] = true
+					ws[pp.elemKey(st.Elem())] = true
 				}
 			case "delete":
 				mt := cc.Args[0].Type().Underlying().(*types.Map)
@@ -447,7 +447,7 @@ func (pp *Prepass) instrWritesIn(fn *ssa.Function, ins ssa.Instruction, ws KeySe
 					ws[MapDomKey(tm.SortOf(t.Key()), t)] = true
 					ws[MapCardKey] = true
 				case *types.Slice:
-					ws[ElemKey(tm.SortOf(t.Elem()))] = true
+					ws[pp.elemKey(t.Elem())] = true
 				}
 			case "close":
 				ws["G:closed"] = true
@@ -539,7 +539,7 @@ func (pp *Prepass) stubFrameKeys(fc *FuncContract, cc *ssa.CallCommon, ws KeySet
 			if e.Name == "all" {
 				pp.pointeeKeys(a.Type(), ws)
 			} else if st, ok := a.Type().Underlying().(*types.Slice); ok {
-				ws[ElemKey(pp.tm.SortOf(st.Elem()))] = true
+				ws[pp.elemKey(st.Elem())] = true
 			} else {
 				all = false
 			}
@@ -646,7 +646,7 @@ func (pp *Prepass) addrKeys(addr ssa.Value, ws KeySet) {
 	case *ssa.IndexAddr:
 		switch t := a.X.Type().Underlying().(type) {
 		case *types.Slice:
-			ws[ElemKey(tm.SortOf(t.Elem()))] = true
+			ws[pp.elemKey(t.Elem())] = true
 		case *types.Pointer: // pointer to array
 			pp.addrKeys(a.X, ws)
 		}
@@ -765,6 +765,18 @@ func (pp *Prepass) monitorKeys(md *MonitorDecl, ws KeySet) {
 
 // KeysWithPrefix lists all heap keys (fields of the loaded packages, memory
 // cells, slice/map contents) whose name starts with prefix.
+// elemKey is the write-set key for writes to the elements of arrays of Go
+// element type el: the heap array of the element sort, qualified with the
+// element type unless that is (or contains) a type parameter.
+func (pp *Prepass) elemKey(el types.Type) string {
+	k := ElemKey(pp.tm.SortOf(el))
+	tk := typeKey(el)
+	if strings.Contains(tk, "$") || strings.Contains(tk, "@") {
+		return k
+	}
+	return k + "@" + tk
+}
+
 func (pp *Prepass) KeysWithPrefix(prefix string) []string {
 	set := KeySet{}
 	regMu.Lock()
@@ -780,6 +792,10 @@ func (pp *Prepass) KeysWithPrefix(prefix string) []string {
 	for _, ws := range pp.WriteSet {
 		for k := range ws {
 			if strings.HasPrefix(k, prefix) && !strings.HasSuffix(k, "*") {
+				if i := strings.Index(k, "@"); i >= 0 && strings.HasPrefix(k, "E:") {
+					// a pattern means every array of the sort
+					k = k[:i]
+				}
 				set[k] = true
 			}
 		}
